@@ -802,7 +802,7 @@ theorem gv_eq_grad_freq_of_branch_partial (factor cutoff : ℝ) (D : ℝ → Mat
 
 /-- The full statement (not proved): for a differentiable Hermitian family with a simple eigenvalue at `t`
 there is a differentiable eigenvalue branch through it whose frequency has the reported group velocity as
-derivative.  `gv_eq_grad_freq_partial` assumes the existence and the Hellmann–Feynman derivative of the branch. -/
+derivative.  `hellmann_feynman` proves the derivative for a given continuous branch; the `_partial` theorems assume the existence of that branch. -/
 def FullStatement_gv_eq_grad_freq : Prop :=
   ∀ (d : Nat) (D : ℝ → Mat d ℝ) (D' : Mat d ℝ) (t : ℝ) (e : Fin d → Cx ℝ) (lam0 factor cutoff : ℝ),
     (∀ r c, HasDerivAt (fun x => (D x r c).re) (D' r c).re t ∧ HasDerivAt (fun x => (D x r c).im) (D' r c).im t) →
